@@ -624,3 +624,5 @@ MUTANTS = [
     ('sap-shutdown-without-unbind', 'nfc.llcp.llc', """            socket.bind(None)
             socket.close()""", """            socket.close()""", 'C09-R7'),
 ]
+
+EXPLANATION += ' Round 5: notify_all is passed on every path through close() (CFG must-pass); the NFC-DEP release loops that terminate() runs through are bounded (C04-R5 obligations as C09-R8).'
